@@ -1,4 +1,5 @@
 PROP = dict(
+    cover_pkgs=["pdu"],
     gen=["layouts"],
     proof_files=["Properties/C04.v", "Proofs/PduStreamProofs.v", "Proofs/PduAllocProofs.v"],
     model_files=["Model/Pdu.v", "Model/PduRun.v", "Model/PduAlloc.v", "Model/PduAllocRun.v"],
